@@ -4,7 +4,7 @@
 From Coq Require Import ZArith List Bool.
 From CiwV Require Import Sx Prelude.
 From CiwV.Engine Require Import State2 Engine2 Codec2.
-From CiwV.Inv Require Conserve2 Sched2 Preempt2 Renege2 Route2 Samples2 Blocking2 Servers2 Clock2 HorizonCount2 Journey2.
+From CiwV.Inv Require Conserve2 Sched2 Preempt2 Renege2 Route2 Samples2 Blocking2 Servers2 Clock2 HorizonCount2 Journey2 Horizon2.
 Import ListNotations.
 Open Scope Z_scope.
 
@@ -21,7 +21,7 @@ Definition invs2_b (cf : config) (s : sim) : list bool :=
     forallb (fun b => b) (Blocking2.blocking2_b cf s);
     negb (Servers2.srv_scope cf) || Servers2.srvinv2_b cf s;         (* C04: server <-> customer link (scope: Servers2.srv_scope) *)
     negb (Servers2.srv_scope cf) || (Servers2.srvinv2_b cf s && Servers2.nonidle2_b cf s);
-    negb (Clock2.scope cf) || Clock2.clk2_b cf s;                    (* C02: nothing scheduled in the past, the active node's date = now (scope: Clock2.scope) *)
+    negb (Clock2.scope cf) || Horizon2.hzn2_b cf s;                    (* C02: nothing scheduled in the past, the active node's date = now (scope: Clock2.scope) *)
     HorizonCount2.cinv_b cf s ].                                     (* C14: the four counts are ordered (completed <= finished <= arrived, accepted <= arrived) *)   (* C05: nobody waits while an on-duty server idles *)              (* C07 / C06: counter = length; in their scopes: nobody blocked while there is space, population <= capacity *)                  (* C09: the hypotheses of the routing theorems hold of the configuration *)              (* C13: reneging dates (scope: no pre-emption of any kind) *)
 
 Definition run_invs2 (inp : sx) : sx :=
@@ -40,7 +40,7 @@ Theorem invs2_b_sound cf s : invs2_b cf s = [true; true; true; true; true; true;
   Route2.PrioInv cf s /\ Route2.routing_ok cf /\ Route2.ccm_ok cf /\
   Blocking2.Len2 s /\ (Blocking2.scope_blk cf = true -> Blocking2.Blk2 cf s) /\ (Blocking2.scope_cap cf = true -> Blocking2.Blk2 cf s /\ Blocking2.Cap2 cf s) /\
   (Servers2.srv_scope cf = true -> Servers2.SrvInv2 cf s /\ Servers2.NonIdle2 cf s) /\
-  (Clock2.scope cf = true -> Clock2.Clk2 cf s) /\ HorizonCount2.CInv cf s.
+  (Clock2.scope cf = true -> Horizon2.Hzn2 cf s) /\ HorizonCount2.CInv cf s.
 Proof.
   unfold invs2_b. intros H. injection H as H1 H2 H3 H4 H5 H6 H7 H9 H10 H11 H12 H13.
   split; [apply Conserve2.wfx2_b_sound; exact H1|]. split; [apply Sched2.sched_inv_b_sound; exact H2|]. split; [apply Sched2.next_inv_b_sound; exact H3|].
@@ -55,7 +55,7 @@ Proof.
   split; [exact A|]. split; [exact B|]. split; [exact C|].
   split; [intros Hs; rewrite Hs in H10, H11; cbn in H10, H11; apply andb_true_iff in H11 as [_ H11];
           split; [apply Servers2.srvinv2_b_sound; exact H10|apply Servers2.nonidle2_b_sound; exact H11]|].
-  split; [intros Hs; rewrite Hs in H12; cbn in H12; apply Clock2.clk2_b_sound; exact H12|apply HorizonCount2.cinv_b_sound; exact H13].
+  split; [intros Hs; rewrite Hs in H12; cbn in H12; apply Horizon2.hzn2_b_sound; exact H12|apply HorizonCount2.cinv_b_sound; exact H13].
 Qed.
 Print Assumptions invs2_b_sound.
 
